@@ -1265,7 +1265,8 @@ impl DragonboxFloat for f32 {
 
         let r = umul96_lower64(two_f, *pow5);
         let parity = (r >> (64 - beta)) & 1;
-        let is_integer = r >> (32 - beta);
+        // Only the low 32 bits of the shifted product are the fraction.
+        let is_integer = (r >> (32 - beta)) as u32;
         (parity != 0, is_integer == 0)
     }
 
